@@ -307,7 +307,13 @@ def run_check(pid: str, tier: str, seed: int, replay: str | None = None) -> int:
                   f"(listed; not re-observed in this run)")
 
     replays = []
-    os.makedirs(os.path.join(VERIF, "replays"), exist_ok=True)
+    # runs against another copy of the library (PINT_REPO: seeded changes, snapshots) keep their replay files
+    # apart, so that they never overwrite the witnesses of a run against /repo (files are named by class)
+    rdir = os.path.join(VERIF, "replays")
+    other = os.environ.get("PINT_REPO")
+    if other and os.path.realpath(other) != os.path.realpath("/repo"):
+        rdir = os.path.join(rdir, "other-tree")
+    os.makedirs(rdir, exist_ok=True)
     seen_sig = set()
     for fields, count, wit, spec in unlisted:
         sig = json.dumps(fields, sort_keys=True)
@@ -315,7 +321,7 @@ def run_check(pid: str, tier: str, seed: int, replay: str | None = None) -> int:
             continue
         seen_sig.add(sig)
         name = f"{pid}-{h64(sig):016x}.json"
-        path = os.path.join(VERIF, "replays", name)
+        path = os.path.join(rdir, name)
         json.dump({"property": pid, "fields": fields, "count": count, "witnesses": wit,
                    "spec": spec}, open(path, "w"), indent=1, default=repr)
         replays.append(path)
